@@ -10,7 +10,7 @@ fn stub_format(_a: std::fmt::Arguments<'_>) -> String {
 
 //@ tier: quick
 //@ functions: arrow_buffer::BooleanBuffer::{bitand_assign, bitor_assign, bitwise_bin_op_assign}, Buffer::into_mutable, apply_bitwise_binary_op, from_bitwise_binary_op
-//@ bound: 2-byte masks, left operand a 9..=12-bit view at bit offset 0..=3 that is either uniquely owned or shared with a second live handle; `&=` with an arbitrary right operand: the result equals the pure op per index, and the other handle (if any) still reads its original bits (in place only when unique); unwind 8
+//@ bound: 2-byte masks, left operand a 9..=12-bit view at bit offset 2..=3 that is either uniquely owned or shared with a second live handle; `&=` with an arbitrary right operand at bit offset 1 (operand offsets equal mod 64 select the u64-aligned fast path, which exceeds the memory cap and is outside the claim): the result equals the pure op per index, and the other handle (if any) still reads its original bits (in place only when unique); unwind 8
 //@ stub: alloc::fmt::format -> empty String
 #[kani::proof]
 #[kani::unwind(8)]
@@ -20,18 +20,18 @@ fn c16_bitand_assign_never_mutates_shared() {
     let r: [u8; 2] = kani::any();
     let off: usize = kani::any();
     let len: usize = kani::any();
-    kani::assume(off <= 3 && len >= 9 && len <= 12);
+    kani::assume(off >= 2 && off <= 3 && len >= 9 && len <= 12);
     let lb = Buffer::from_vec(l.to_vec());
     let shared: bool = kani::any();
     let alias = if shared { Some(lb.clone()) } else { None };
     let mut left = BooleanBuffer::new(lb, off, len);
-    let right = BooleanBuffer::new(Buffer::from_vec(r.to_vec()), 0, len);
+    let right = BooleanBuffer::new(Buffer::from_vec(r.to_vec()), 1, len);
     left &= &right;
     assert!(left.len() == len);
     let i: usize = kani::any();
     kani::assume(i < len);
     let lbit = (l[(off + i) / 8] >> ((off + i) % 8)) & 1 == 1;
-    let rbit = (r[i / 8] >> (i % 8)) & 1 == 1;
+    let rbit = (r[(1 + i) / 8] >> ((1 + i) % 8)) & 1 == 1;
     assert!(left.value(i) == (lbit && rbit), "result = pure AND");
     if let Some(al) = alias {
         let k: usize = kani::any();
